@@ -4,6 +4,7 @@ import Pcore.Proofs.DescribeWF
 import Pcore.Proofs.DescribeSig
 import Pcore.Proofs.DescribeLeaf
 import Pcore.Proofs.DescribeTm
+import Pcore.Proofs.DescribeCallable
 set_option linter.unusedSimpArgs false
 set_option linter.unusedVariables false
 /-!
@@ -58,6 +59,9 @@ Full statement / proved / missing
                                 an argument type that is no Tuple/Array leaves `aSize` nil and IntegerType.IsAssignable dereferences it; the
                                 default Callable has no parameter tuple (type assertion on nil); a parameter tuple without types that takes an
                                 argument is indexed at -1.
+* `C19_callable_total`, `C19_callable_empty_iff` — PROVED for an expected Callable at the top of the expectation (model `DescribeCallable.lean`:
+                                CallableType.IsAssignable `asgC`, describeCallableType with parameters / return type / block, guard, fallback):
+                                never a fault; empty exactly when the Callable accepts the actual type.
 * missing: the English of `text()` (article, "or"-lists, detailed vs short type names, quoting); Callable / Init expectations, user-defined
   aliases and unresolved TypeReferences are not in the term language (harness-side tests: `@cdesc`, `@cassert`, `@sigs`, `t2-*`).
 -/
@@ -359,5 +363,24 @@ theorem C19_signatures_fault_nilParams (cfg : Cfg) :
 theorem C19_signatures_fault_paramIndex (cfg : Cfg) :
     describeSignatures cfg true [{ params := some ([], ⟨1, 1⟩), names := [], block := .none }] (.tuple [.strVal "a"] none) = .fault .paramIndex := by
   simp [describeSignatures, sigAllArgs, sigArguments, sigArgLoop, tupleSize, Rng.exact, Rng.sub]
+
+/-! ### Callable expectations -/
+/-- NO FAULT in the description against an expected Callable (parameters, return type, block) -/
+theorem C19_callable_total (cfg : Cfg) (sfh : Bool) (e : CT) (a : CAct) (p : Path) : ∃ ms, describeC cfg sfh e a p = .ok ms :=
+  describeC_total cfg sfh e a p
+
+/-- EMPTY IFF ASSIGNABLE for an expected Callable (CallableType.IsAssignable; a lattice type is accepted only through the right-hand
+    decomposition of GuardedIsAssignable) -/
+theorem C19_callable_empty_iff (cfg : Cfg) (sfh : Bool) (e : CT) (a : CAct) (p : Path) :
+    describeC cfg sfh e a p = .ok [] ↔ asgCA cfg sfh e a = true :=
+  describeC_empty_iff cfg sfh e a p
+
+/-- a Callable that promises a return type against one that declares none: described below a `return` path element (what the seeded
+    change C19-s8 crashed on) -/
+example (cfg : Cfg) :
+    describeC cfg true ⟨some ([.str], none), some (.int Rng.all), none⟩ (.callable ⟨some ([.str], none), none, none⟩) (subjectPath "x")
+      = .ok [.returnTm (subjectPath "x" ++ [⟨.ret, ""⟩]) (.int Rng.all) .any] := by
+  simp [describeC, asgCA, asgC, asgRetParams, describeCallableType, paramErrors, retPart, paramTuple, internalDescribe, tyEq, tyEqL,
+    tupleSize, asg, asgRecv, sameNullary, subjectPath]
 
 end Pcore.Desc
